@@ -43,9 +43,10 @@ type Stream struct {
 	MaxConsecStall     int   // cap on consecutive stalls (0 = 3)
 
 	// explicit plan (enumeration)
-	StallAt map[int]int  // byte offset -> stall kind, fires once when Pos == offset
-	Bounds  map[int]bool // a read never crosses these offsets
-	CutAt   int          // >=0: from this offset on, EOF forever
+	StallAt     map[int]int // byte offset -> stall kind, fires StallRepeat times (default once) when Pos == offset
+	StallRepeat int
+	Bounds      map[int]bool // a read never crosses these offsets
+	CutAt       int          // >=0: from this offset on, EOF forever
 
 	Fired       map[string]int
 	Reads       int
@@ -55,11 +56,11 @@ type Stream struct {
 	MaxChunk    int // >0: upper bound on bytes per read (models 1-byte serial FIFOs)
 	ReadSizes   []int
 	KeepSizes   bool
-	firedStalls map[int]bool
+	firedStalls map[int]int
 }
 
 func NewStream(t *tape.Tape) *Stream {
-	return &Stream{T: t, CutAt: -1, Fired: map[string]int{}, firedStalls: map[int]bool{}}
+	return &Stream{T: t, CutAt: -1, Fired: map[string]int{}, firedStalls: map[int]int{}}
 }
 
 func (s *Stream) Write(p []byte) (int, error) {
@@ -99,9 +100,15 @@ func (s *Stream) Read(p []byte) (int, error) {
 		return 0, io.EOF
 	}
 	// explicit stall at this offset, once
-	if k, ok := s.StallAt[s.Pos]; ok && !s.firedStalls[s.Pos] {
-		s.firedStalls[s.Pos] = true
-		return s.stall(k)
+	if k, ok := s.StallAt[s.Pos]; ok {
+		rep := s.StallRepeat
+		if rep < 1 {
+			rep = 1
+		}
+		if s.firedStalls[s.Pos] < rep {
+			s.firedStalls[s.Pos]++
+			return s.stall(k)
+		}
 	}
 	// tape-driven stall
 	if s.T != nil && s.StallDen > 0 && len(s.StallKinds) > 0 {
